@@ -85,6 +85,24 @@ TEMPLATES = {
         "flow main\n  activate varholder\n  start WorkAction() as $w\n  match $w.Finished()\n  match Ask()\n  send Answer(s=$w.status)\n  match Never()\n",
         [[["FIN", 0], "X", "Ask"], ["X", ["FIN", 0], "Ask", "X"]],
     ),
+    # a member of an awaited group of flows finishes long before the group completes (its instance ages away while the
+    # waiting flow's scope still names it)
+    "group-member-done-before-aging": (
+        "flow main\n  activate varholder\n  await (fx and fy) or fz\n  send DoneG()\n  match Tail()\n  send TailG()\n  match Never()\n\n"
+        "flow fx\n  match A()\n\nflow fy\n  match B()\n\nflow fz\n  match C()\n",
+        [["A", "X", "B", "Tail"], ["B", "A", "Tail"], ["A", "X", "C", "Tail", "X"], ["C", "Tail"]],
+    ),
+    "when-group-member-done-before-aging": (
+        "flow main\n  activate varholder\n  when fx and fy\n    send DoneW()\n  or when fz\n    send OtherW()\n  match Tail()\n  send TailW()\n  match Never()\n\n"
+        "flow fx\n  match A()\n\nflow fy\n  match B()\n\nflow fz\n  match C()\n",
+        [["A", "X", "B", "Tail"], ["B", "X", "A", "Tail"], ["A", "C", "Tail"]],
+    ),
+    "or-group-of-flow-and-action": (
+        "flow main\n  activate varholder\n  start fa\n  match Never()\n\n"
+        "flow fa\n  await fx or WaitAction()\n  send DoneA()\n  match Tail()\n  send TailA()\n\n"
+        "flow fx\n  match A()\n",
+        [["X", "A", "X", "Tail"], [["FIN", 0], "X", "Tail"], ["X", "X", "A", "Tail"]],
+    ),
     "activated-restart-after-aging": (
         "flow main\n  activate varholder\n  activate fz\n  match Never()\n\n"
         "flow fz\n  match Tick()\n  start FzAction() as $z\n  match $z.Finished()\n  send Tock()\n",
